@@ -203,21 +203,9 @@ def dominates(par, body, a, b):
     return False
 
 
-def run(chk):
-    units = core.library_units()
-    fx = chk.facts(units)
-    fh = chk.facts(["opm/input/eclipse/Schedule/Schedule.cpp"], files_re="^/repo/opm/input/eclipse/Schedule/", fn_re="^$")
-    for q, r in fh.recs.items():
-        fx.recs.setdefault(q, r)
-    fns = [f for f in fx.fns if f["file"].startswith(core.REPO + "/opm/")]
-    closure = closure_from(fx, SS)
-    chk.extra["closure_classes"] = len(closure)
-
-    allow_e, used_e = run_escape(chk, fx, fns)
-    allow_t, used_t = run_through(chk, fx, fns, closure)
-
+def run_inplace(chk, fx, fns, prefix="C03"):
     # ---- C03.inplace: callers of the in-place mutators
-    r_inp = chk.rule("C03.inplace", "every caller of an in-place connection mutator (Well::updateWellProductivityIndex / applyWellProdIndexScaling) first gives the Well a private copy of its connections", floor=4)
+    r_inp = chk.rule(prefix + ".inplace", "every caller of an in-place connection mutator (Well::updateWellProductivityIndex / applyWellProdIndexScaling) first gives the Well a private copy of its connections", floor=4)
     INPLACE = ("Opm::Well::updateWellProductivityIndex", "Opm::Well::applyWellProdIndexScaling")
     for f in fns:
         if not f.get("body"):
@@ -233,6 +221,7 @@ def run(chk):
                     chk.instance(r_inp, key, sample=dict(caller=f["q"], callee=n["fn"], discharged_by="handleWELPI installs a fresh well unconditionally"))
                     continue
                 fresh = None
+                unforced = None
                 for c in walk_fn(f):
                     if c["k"] == "MCall" and c.get("fn") == "Opm::Well::updateConnections" and show(strip(c.get("obj") or {})) == show(obj):
                         arg = c["a"][0] if c.get("a") else None
@@ -240,10 +229,17 @@ def run(chk):
                         names = [x["n"] for x in walk(arg) if x["k"] == "Ref" and x.get("d") == "Var"] if arg else []
                         env = {v["n"]: show(v.get("init")) + " : " + (v.get("t") or "") for d in walk_fn(f) if d["k"] == "Decl" for v in d["vars"]}
                         if "make_shared" in txt or any("make_shared" in (env.get(nm) or "") and "WellConnections" in (env.get(nm) or "") for nm in names):
-                            if dominates(par, f["body"], c, n):
+                            # Well::updateConnections(ptr, force) discards the copy when force is false and the contents are
+                            # equal - which is exactly when the old object is still shared: the install must be forced
+                            forced = len(c.get("a", [])) >= 2 and strip(c["a"][1]).get("k") == "Bool" and strip(c["a"][1]).get("v") in (True, 1, "true")
+                            if not forced:
+                                unforced = c
+                            elif dominates(par, f["body"], c, n):
                                 fresh = c
                 chk.instance(r_inp, key, sample=dict(caller=f["q"], callee=n["fn"], cloned_at=fresh and fresh["l"]))
-                if fresh is None:
+                if fresh is None and unforced is not None:
+                    chk.violation(r_inp, key + ":unforced", "%s clones the connections of `%s` but installs the clone with updateConnections(..., force = %s): when the clone equals the original it is discarded, the well keeps the object it shares with earlier report steps and %s then rescales that object in place" % (f["q"], show(obj), show(unforced["a"][1]) if len(unforced.get("a", [])) > 1 else "<default>", n["fn"]), f["file"], unforced["l"])
+                elif fresh is None:
                     chk.violation(r_inp, key, "%s calls %s on `%s` without first installing a private copy of the well's connections (updateConnections(make_shared<WellConnections>(...))): the connections shared with earlier report steps are modified in place" % (f["q"], n["fn"], show(obj)), f["file"], n["l"])
     hw = [f for f in fns if f["n"] == "handleWELPI" and f["file"].endswith("WellPropertiesKeywordHandlers.cpp")]
     if len(hw) != 1:
@@ -255,6 +251,23 @@ def run(chk):
     chk.instance(r_inp, "handleWELPI:install", sample=dict(updates=len(ups), conditional=len(cond)))
     if len(ups) != 1 or cond:
         chk.violation(r_inp, "handleWELPI:install", "handleWELPI must install the re-pointed well unconditionally: Schedule::applyWellProdIndexScaling rescales the well objects from the WELPI step onwards in place and relies on them not being shared with earlier steps", hw[0]["file"], hw[0]["l"])
+
+
+
+def run(chk):
+    units = core.library_units()
+    fx = chk.facts(units)
+    fh = chk.facts(["opm/input/eclipse/Schedule/Schedule.cpp"], files_re="^/repo/opm/input/eclipse/Schedule/", fn_re="^$")
+    for q, r in fh.recs.items():
+        fx.recs.setdefault(q, r)
+    fns = [f for f in fx.fns if f["file"].startswith(core.REPO + "/opm/")]
+    closure = closure_from(fx, SS)
+    chk.extra["closure_classes"] = len(closure)
+
+    allow_e, used_e = run_escape(chk, fx, fns)
+    allow_t, used_t = run_through(chk, fx, fns, closure)
+
+    run_inplace(chk, fx, fns)
 
     # ---- C03.index
     r_idx = chk.rule("C03.index", "snapshots[e] with an arithmetic index (an earlier/later step than the one being built) is only read", floor=40)
